@@ -231,7 +231,12 @@ def native_stage(pid, mdir, recs, gmap, tier_cfgs, skip_native=False):
             want_tags = [k for k in r["keys"] if re.match(r"^C\d\d", k)]
             hit = [t for t in want_tags if t in fails]
             real_panic = [k for k in r["keys"] if not re.match(r"^C\d\d", k)]
-            if hit or (real_panic and (panics or aborted or any(s == "FAILED" for s in stat.values()))):
+            def panic_matches(k):
+                # key = category:description@function ; native text must contain the description's leading phrase
+                desc = k.split(":", 1)[-1].rsplit("@", 1)[0]
+                phrase = desc.split(":")[0].strip().lower()
+                return any(phrase in p.lower() for p in panics) or (phrase in nout.lower())
+            if hit or any(panic_matches(k) for k in real_panic):
                 r["reproduced"] = True
             else:
                 r["why"] = "native run of the counterexample did not hit the failing obligation"
